@@ -365,8 +365,9 @@ def check_b(case):
             return discard("literal-could-merge-with-part")
         if li.endswith("\\") and i < len(lits) - 1:
             return discard("backslash-before-part")
-    if len(pidx) == 2 and (lits[1] == "" or sample[pidx[0]][0] == sample[pidx[1]][0]):
-        return discard("glued-or-repeated-parts")
+    if len(pidx) == 2 and (lits[1] == "" or (legacy and sample[pidx[0]][0] == sample[pidx[1]][0])):
+        return discard("glued-or-repeated-parts")  # (the v2 compiler numbers the groups of a repeated part; v1 does not)
+    repeated = len(pidx) == 2 and pidx[0] == pidx[1]
     if lits[0].startswith("^") or lits[-1].endswith("$"):
         return discard("anchored-wrapped-pattern")
     nt = bool(set("".join(lits)) & SPECIAL)
@@ -374,7 +375,7 @@ def check_b(case):
     if bad:
         causes = attribute(lits, lambda ls: wrapped_fail(ls, pidx, legacy) is not None)
         return viols_for(bad, causes, {"compiler": "legacy" if legacy else "v2", "wrapped": True}, nt, (kind,))
-    return ok(nt=nt, classes=(kind,))
+    return ok(nt=nt, classes=(kind, "same-part-twice") if repeated else (kind,))
 
 
 def wrapped_fail(lits, pidx, legacy):
